@@ -170,6 +170,7 @@ type Frame struct {
 	params   []Value
 	entry    State
 	top      *Frame
+	parent   *Frame // the frame this one is inlined into (nil for the function under contract)
 	nopanic  bool
 	defers   []*ssa.Defer
 	loops    map[*ssa.BasicBlock]*LoopInfo
